@@ -188,7 +188,9 @@ func runC07(c *core.Ctx) {
 	c.Rule("R7", "every handler's exception role is recorded by the context constructor; the exact-length reader rewrites only io.EOF (shared with C03-R3, C08-R7)", 2)
 	importObligations(c, runC03, "R7", func(o *core.Obligation) bool { return o.Rule == "R3" && strings.Contains(o.Key, "ctor/cast") })
 	importObligations(c, runC08, "R7", func(o *core.Obligation) bool { return strings.Contains(o.Key, "maps-only-eof") })
-	importObligations(c, runC03, "R7", func(o *core.Obligation) bool { return o.Rule == "R4" && strings.Contains(o.Key, "tail-handler") })
+	importObligations(c, runC03, "R7", func(o *core.Obligation) bool {
+		return o.Rule == "R4" && (strings.Contains(o.Key, "tail-handler") || strings.Contains(o.Key, "fire/FireChannelException"))
+	})
 
 	// ---- R4
 	e.checkAsException(c)
